@@ -11,7 +11,7 @@ ASSUME = [
 ]
 # violation keys of the replay driver that express C01
 KEYS = {"bytes-wrong", "bytes-missing", "session-died", "write-refused", "open-refused", "read-blocked",
-        "eof-early", "call-blocked", "accept-failed"}
+        "eof-early", "call-blocked", "accept-failed", "trace-rejected"}
 
 
 RULE = ("behaviours of MuxGen (API calls x delivery orders over gated connections; exhaustive BFS for 2 conns/1 stream/2 units "
@@ -49,8 +49,23 @@ def addconn_race(ctx):
     res = lib.run_go(ctx, "multiplex", "TestVerifC01AddConnRace", timeout=600)
     lib.collect_go(ctx, res)
     ctx.log("addconn race: %d rounds, %d violations" % (res["evaluations"], len(res.get("violations", []))))
-    return {"evaluations": res["evaluations"], "distinct_nontrivial": res["distinct_nontrivial"], "samples": res["samples"][:1],
-            "traces": res["evaluations"], "addconn_race_stats": res["stats"]}
+    # end to end: real RouteTCP + MakeSession against real dispatchConnection/serveSession over a pumped, gated network
+    rig = lib.run_go(ctx, "server", "TestVerifC01Rig", timeout=1500, tag="rig")
+    lib.collect_go(ctx, rig)
+    if rig["stats"].get("timeouts") and not rig.get("violations"):
+        raise lib.Inconclusive("end-to-end rig: application connections did not finish: %s" % rig.get("notes"))
+    import os
+    tpath = os.path.join(rig["_out_dir"], "trace.ndjson")
+    lines = open(tpath).read().splitlines()
+    v = lib.run_tlc(ctx, "EchoTrace", "EchoTrace.cfg", workers=1, env={"VERIF_TRACE": tpath}, expect_violation=True, tag="echotrace", timeout=900)
+    if not v.ok:
+        ln = v.rejected_at or 1
+        ctx.violations.append({"key": "trace-rejected", "what": "end-to-end application trace is not a behaviour of the per-stream FIFO: event %s (line %d)"
+                               % (lines[ln - 1] if ln <= len(lines) else "?", ln), "replay": {"trace_tail": lines[max(0, ln - 10):ln]}})
+    ctx.log("rig: %d scenarios, %d bytes echoed, %d events, trace accepted=%s" % (rig["evaluations"], rig["stats"].get("bytes_echoed", 0), len(lines), v.ok))
+    return {"evaluations": res["evaluations"] + rig["evaluations"], "distinct_nontrivial": res["distinct_nontrivial"] + rig["distinct_nontrivial"],
+            "samples": res["samples"][:1] + rig["samples"][:1], "traces": res["evaluations"] + (rig["evaluations"] if v.ok else 0),
+            "addconn_race_stats": res["stats"], "rig_stats": {k: x for k, x in rig["stats"].items() if not k.startswith("violations")}}
 
 
 replay = muxprop.replay_file
